@@ -19,7 +19,7 @@ type Case struct {
 	Trailer bool           `json:"trailer,omitempty"`
 	Chunks  []int          `json:"chunks"` // sizes of successive CopyData payloads (0 = empty message); the rest goes into a last message
 	// corruption
-	Corrupt string `json:"corrupt,omitempty"` // "" | field-count | field-length | negative-length | truncated | signature
+	Corrupt string `json:"corrupt,omitempty"` // "" | field-count | field-length | negative-length | wrong-width | truncated | signature
 	At      int    `json:"at,omitempty"`      // row index the corruption applies to
 	Count   int    `json:"count,omitempty"`   // field-count: the count written
 	Extra   bool   `json:"extended,omitempty"`
@@ -74,6 +74,9 @@ func (c Case) inflated() Case {
 	return c
 }
 
+// FixedWidth: binary size of the fixed-width types.
+var FixedWidth = map[string]int{"bool": 1, "int2": 2, "int4": 4, "oid": 4, "float4": 4, "date": 4, "int8": 8, "float8": 8, "timestamp": 8, "timestamptz": 8, "uuid": 16}
+
 var signature = []byte("PGCOPY\n\377\r\n\000")
 
 // stream encodes the rows; it returns the stream and the offset at which each
@@ -116,6 +119,17 @@ func (c Case) stream() ([]byte, []int) {
 					l = 0x0FFFFFF0
 				case "negative-length":
 					l = 0xFFFFFFFE
+				case "wrong-width":
+					// a fixed-width type with a length that is not its width, the declared number of
+					// bytes being present (the stream stays consistent): Count extra bytes, or one short
+					if w := FixedWidth[v.T]; w > 0 && len(enc) == w {
+						if c.Count > 0 {
+							enc = append(append([]byte{}, enc...), make([]byte, c.Count)...)
+						} else {
+							enc = enc[:w-1]
+						}
+						l = uint32(len(enc))
+					}
 				}
 			}
 			b = binary.BigEndian.AppendUint32(b, l)
